@@ -8,6 +8,7 @@ of Props/C15.lean interpret that signature by the mathematical DFT, so dropping 
 a factor or taking the reference sample elsewhere changes the term the kernel re-checks.
 """
 import ast
+import os
 from pyexpr2lean import (Gen, Tr, Untranslatable, load, get_def, find_assign, find_assigns, find_returns,
                          find_calls, call_arg, body_to_lean)
 
@@ -97,6 +98,12 @@ HDR = '{A I : Type} (P : FOps A I)'
 
 def generate(repo):
     g = Gen('C15', imports=['PrysmVerif.Model.C15'], opens=['Model.C15'])
+    if os.environ.get('VERIF_FORCE_FALLBACK'):      # self-test: every item degrades to its hand-model fallback
+        _item = g.item
+
+        def _forced():
+            raise Untranslatable('forced by VERIF_FORCE_FALLBACK')
+        g.item = lambda name, source, node_fn, build, fallback: _item(name, source, node_fn, _forced, fallback)
     cv, _ = load(repo, 'prysm/convolution.py')
     ot, _ = load(repo, 'prysm/otf.py')
     dg, _ = load(repo, 'prysm/degredations.py')
@@ -169,34 +176,66 @@ def generate(repo):
            f'def tfPost {HDR} (shift : Bool) (O : A) : A := {M}.tfPost P shift O\n'
            f'def applyTF {HDR} (shift : Bool) (obj : A) (tfs : List A) : A := {M}.applyTF P shift obj tfs')
 
-    # frequency grids handed to callables
-    def grid_assign():
+    # frequency grids handed to callables.  A structural fact is `true` for the known-good shape, `false` only for a
+    # recognised wrong variant, and *untranslatable* (deferred to the widened correspondence) for anything else.
+    def fact_item(name, source, check):
+        def build():
+            return f'def {name} : Bool := {"true" if check() else "false"}'
+        g.item(name, source, lambda: get_def(cv, 'apply_transfer_functions'), build, f'def {name} : Bool := true')
+
+    def grid_calls():
+        """[(target name, axis expression, call node)] of the forward_ft_unit calls that build the grids"""
         fn = get_def(cv, 'apply_transfer_functions')
+        out = []
         for n in ast.walk(fn):
-            if isinstance(n, ast.Assign) and isinstance(n.targets[0], ast.Tuple) \
-                    and isinstance(n.value, ast.ListComp) and 'forward_ft_unit' in ast.unparse(n.value):
-                return n
-        raise Untranslatable('frequency grid construction not found')
+            if not isinstance(n, ast.Assign):
+                continue
+            t, v = n.targets[0], n.value
+            if isinstance(t, ast.Tuple) and isinstance(v, ast.ListComp) and isinstance(v.elt, ast.Call) \
+                    and ast.unparse(v.elt.func) == 'forward_ft_unit' and len(v.generators) == 1 \
+                    and ast.unparse(v.generators[0].iter) == 'obj.shape' and len(t.elts) == 2:
+                var = v.generators[0].target.id
+                samples = call_arg(v.elt, 1, 'samples')
+                if samples is None or ast.unparse(samples) != var:
+                    raise Untranslatable('forward_ft_unit is not called with the axis length')
+                out += [(t.elts[0].id, 'obj.shape[0]', v.elt), (t.elts[1].id, 'obj.shape[1]', v.elt)]
+            elif isinstance(t, ast.Name) and isinstance(v, ast.Call) and ast.unparse(v.func) == 'forward_ft_unit':
+                samples = call_arg(v, 1, 'samples')
+                out.append((t.id, ast.unparse(samples) if samples is not None else '?', v))
+        if sorted(x[0] for x in out) != ['fx', 'fy']:
+            raise Untranslatable(f'frequency grid construction not recognised: {[x[0] for x in out]}')
+        return out
 
     def grid_yx():
-        n = grid_assign()
-        gen = n.value.generators[0]
-        call = n.value.elt
-        return [t.id for t in n.targets[0].elts] == ['fy', 'fx'] and ast.unparse(gen.iter) == 'obj.shape' \
-            and ast.unparse(call_arg(call, 0, 'dx')) == 'dx' and ast.unparse(call_arg(call, 1, 'samples')) == gen.target.id
-    g.fact('tfGridIsFtUnitPerAxisYX', 'prysm/convolution.py:apply_transfer_functions', grid_yx)
+        d = {name: axis for name, axis, _ in grid_calls()}
+        if not all(a in ('obj.shape[0]', 'obj.shape[1]') for a in d.values()):
+            raise Untranslatable(f'axis lengths {d}')
+        return d == {'fy': 'obj.shape[0]', 'fx': 'obj.shape[1]'}
+    fact_item('tfGridIsFtUnitPerAxisYX', 'prysm/convolution.py:apply_transfer_functions', grid_yx)
 
     def grid_shift():
-        call = grid_assign().value.elt
-        a = call_arg(call, 2, 'shift')
-        return a is not None and ast.unparse(a) == 'shift'
-    g.fact('tfGridOriginFollowsConvention', 'prysm/convolution.py:apply_transfer_functions', grid_shift)
+        ok = True
+        for _, _, call in grid_calls():
+            a = call_arg(call, 2, 'shift')
+            if a is None:
+                ok = False                      # default shift=True whatever the convention: the pinned defect
+            elif ast.unparse(a) != 'shift':
+                if isinstance(a, ast.Constant):
+                    ok = False
+                else:
+                    raise Untranslatable(f'shift argument {ast.unparse(a)}')
+        return ok
+    fact_item('tfGridOriginFollowsConvention', 'prysm/convolution.py:apply_transfer_functions', grid_shift)
 
     def grid_polar():
         fn = get_def(cv, 'apply_transfer_functions')
-        src = [ast.unparse(s) for s in ast.walk(fn) if isinstance(s, ast.Assign)]
-        return 'fx, fy = optimize_xy_separable(fx, fy)' in src and 'fr, ft = cart_to_polar(fx, fy)' in src
-    g.fact('tfPolarGridFromCartesian', 'prysm/convolution.py:apply_transfer_functions', grid_polar)
+        calls = [n for n in ast.walk(fn) if isinstance(n, ast.Assign) and isinstance(n.value, ast.Call)
+                 and ast.unparse(n.value.func) == 'cart_to_polar']
+        if len(calls) != 1:
+            raise Untranslatable('polar grids are not built by one cart_to_polar call')
+        n = calls[0]
+        return ast.unparse(n.targets[0]) == '(fr, ft)' and [ast.unparse(a) for a in n.value.args] == ['fx', 'fy']
+    fact_item('tfPolarGridFromCartesian', 'prysm/convolution.py:apply_transfer_functions', grid_polar)
 
     def kwargs_table():
         fn = get_def(cv, 'apply_transfer_functions')
